@@ -37,7 +37,7 @@ TUPLES = [
                    ("g", "((1+sqrt(5))/2)**n + ((1-sqrt(5))/2)**n")]),
     ("units", [("a", "(-1)**n"), ("b", "2**n"), ("c", "(-2)**n")]),
     ("complex", [("a", "I**n + (-I)**n"), ("b", "(-1)**n")]),
-    ("sqrt2", [("a", "sqrt(2)**n"), ("b", "2**n")]),
+    ("sqrt-pair", [("a", "(1+sqrt(2))**n"), ("b", "(1-sqrt(2))**n"), ("c", "(-1)**n")]),
     ("const-shift", [("a", "3*4**n + 1"), ("b", "8**n - 2"), ("c", "2**n")]),
     ("no-relation", [("a", "2**n"), ("b", "3**n")]),
     ("coprime-with-n", [("a", "2**n + n"), ("b", "3**n")]),
@@ -182,7 +182,8 @@ def prepare(inst, res):
             if abs(want - got) > 1e-9 * max(1, abs(want)):
                 raise exppoly.Unsupported(f"decomposition of {g} differs at n={i}")
     inst.update({"names": names, "n0": n0, "gens": gens, "F": F, "exprs": [str(e) for e in exprs]})
-    inst["basis"] = [[(parse_fr(c), list(es)) for c, es in poly] for poly in res["basis"]]
+    inst["basis"] = [[(parse_fr(c), list(es)) for c, es in poly] for poly in res["basis"] if poly is not None]
+    inst["nongoal_elements"] = res.get("nongoal_elements", [])
     inst["basis_str"] = res.get("basis_str")
     inst["exp_bases"] = res.get("exp_bases", [])
     inst["printed"] = res.get("printed")
@@ -270,14 +271,90 @@ def exp_bases_trigger_c16(exp_bases):
     return not lc.nullspace_is_integral(primes, facts)
 
 
-def run_polar(ctx, insts):
+def run_polar(ctx, insts, override=False):
     tasks = []
     for i in insts:
         if i["kind"] == "tuple":
-            tasks.append({"kind": "invariant_ideal", "closed_forms": [[g, s] for g, s in i["cfs"]], "timeout": ctx.pick(60, 180)})
+            t = {"kind": "invariant_ideal", "closed_forms": [[g, s] for g, s in i["cfs"]], "timeout": ctx.pick(60, 180)}
         else:
-            tasks.append({"kind": "program_invariants", "program": i["program"], "goals": i["goals"], "timeout": ctx.pick(90, 240)})
+            t = {"kind": "program_invariants", "program": i["program"], "goals": i["goals"], "timeout": ctx.pick(90, 240)}
+        if override:
+            t["lattice_override"] = {"bases": i["exp_bases"], "basis": i["true_lattice"]}
+        tasks.append(t)
     return lib.run_tasks(tasks, timeout=ctx.pick(90, 240))
+
+
+def label_of(inst):
+    return inst.get("program") or inst["cfs"]
+
+
+def validate(ctx, todo, tag):
+    """Coq validator + exact evaluation for every basis element of the prepared instances.
+    -> inst["verdicts"] = list of dicts {poly, pstr, accepted, bad (n, value) | None}"""
+    files, per = [], 30
+    for j in range(0, len(todo), per):
+        body, names = HEADER, []
+        for i, inst in enumerate(todo[j:j + per]):
+            ring = exppoly.coq_ring(inst["gens"])
+            body += f"Definition F{i} : list (epoly {ring}) := {coq_F(inst['F'])}.\n"
+            for b, poly in enumerate(inst["basis"]):
+                nm = f"c{i}_{b}"
+                body += f"Definition {nm} : bool := check_invariant (R := {ring}) {coq_poly(poly, len(inst['gens']))} F{i}.\n"
+                names.append(nm)
+        body += "Eval vm_compute in [" + "; ".join(names) + "].\n"
+        files.append((f"c06{tag}_{j // per}", body))
+    out = lib.coq_run_many(ctx, files)
+    for j in range(0, len(todo), per):
+        okc, o = out[f"c06{tag}_{j // per}"]
+        bl = lib.parse_bool_list(o) if okc else None
+        pos = 0
+        for inst in todo[j:j + per]:
+            inst["verdicts"] = []
+            inst.pop("coq_error", None)
+            if bl is None:
+                inst["coq_error"] = o[-800:]
+            for poly in inst["basis"]:
+                acc = bl[pos] if bl is not None and pos < len(bl) else None
+                pos += 1
+                bad = None
+                for n in range(inst["n0"], NMAX + 1):
+                    val = eval_poly(poly, sequence_values(inst, n), inst["gens"])
+                    if not t_is_zero(val):
+                        bad = (n, val)
+                        break
+                pstr = " + ".join("*".join([f"({c})"] + [f"{g}^{e}" for g, e in zip(inst["names"], es) if e]) for c, es in poly)
+                inst["verdicts"].append({"poly": poly, "pstr": pstr, "accepted": acc, "bad": bad})
+
+
+def prepare_all(insts, results, errs):
+    todo = []
+    for inst, res in zip(insts, results):
+        inst.pop("polar_error", None)
+        if "error" in res:
+            key = res.get("etype", res["error"])
+            errs[key] = errs.get(key, 0) + 1
+            inst["polar_error"] = res
+            continue
+        try:
+            prepare(inst, res)
+        except exppoly.Unsupported as e:
+            errs["unsupported:" + str(e)[:40]] = errs.get("unsupported:" + str(e)[:40], 0) + 1
+            continue
+        todo.append(inst)
+    return todo
+
+
+def true_lattice_for(exp_bases):
+    """Polar-independent basis of the exponent lattice of rational bases (None if not all rational)"""
+    import sympy as sp
+    try:
+        bs = [sp.sympify(b) for b in exp_bases]
+    except Exception:
+        return None
+    if not bs or not all(b.is_Rational and b != 0 for b in bs):
+        return None
+    fr = [Fraction(int(b.p), int(b.q)) for b in bs]
+    return lc.true_rational_lattice(fr)[0]
 
 
 def run(ctx):
@@ -296,48 +373,13 @@ def run(ctx):
     insts = generate(ctx)
     results = run_polar(ctx, insts)
     errs, hist, stat = {}, {}, {}
-    todo = []
-    for inst, res in zip(insts, results):
-        if "error" in res:
-            key = res.get("etype", res["error"])
-            errs[key] = errs.get(key, 0) + 1
-            inst["polar_error"] = res
-            continue
-        try:
-            prepare(inst, res)
-        except exppoly.Unsupported as e:
-            errs["unsupported:" + str(e)[:40]] = errs.get("unsupported:" + str(e)[:40], 0) + 1
-            continue
-        todo.append(inst)
-    # Coq: one boolean per basis element
-    files, per = [], 30
-    for j in range(0, len(todo), per):
-        body, names = HEADER, []
-        for i, inst in enumerate(todo[j:j + per]):
-            ring = exppoly.coq_ring(inst["gens"])
-            body += f"Definition F{i} : list (epoly {ring}) := {coq_F(inst['F'])}.\n"
-            for b, poly in enumerate(inst["basis"]):
-                nm = f"c{i}_{b}"
-                body += f"Definition {nm} : bool := check_invariant (R := {ring}) {coq_poly(poly, len(inst['gens']))} F{i}.\n"
-                names.append(nm)
-        body += "Eval vm_compute in [" + "; ".join(names) + "].\n"
-        files.append((f"c06_{j // per}", body))
-    out = lib.coq_run_many(ctx, files)
-    for j in range(0, len(todo), per):
-        okc, o = out[f"c06_{j // per}"]
-        bl = lib.parse_bool_list(o) if okc else None
-        pos = 0
-        for inst in todo[j:j + per]:
-            inst["coq"] = []
-            for _ in inst["basis"]:
-                inst["coq"].append(bl[pos] if bl is not None and pos < len(bl) else None)
-                pos += 1
-            if bl is None:
-                inst["coq_error"] = o[-800:]
+    todo = prepare_all(insts, results, errs)
+    validate(ctx, todo, "a")
+    failing = []
     for inst in todo:
         fam = inst["family"].split(":")[0]
         hist[fam] = hist.get(fam, 0) + 1
-        label = inst.get("program") or inst["cfs"]
+        label = label_of(inst)
         ctx.count({"i": label, "g": inst.get("goals")}, nontrivial=len(inst["basis"]) > 0)
         if "coq_error" in inst:
             ctx.violation(f"coq-case-error:{label}", {"input": label, "log": inst["coq_error"]},
@@ -356,43 +398,67 @@ def run(ctx):
                                    "true_values": [str(x) for x in oracle_values(inst, n)]},
                                   f"closed forms {inst['exprs']} of {inst['goals']} differ from the exact sequence at n={n}")
                     break
-        for b, (poly, acc) in enumerate(zip(inst["basis"], inst["coq"])):
+        for el in inst.get("nongoal_elements", []):
             ctx.coverage["obligations"] += 1
-            bad = None
-            for n in range(n0, NMAX + 1):
-                val = eval_poly(poly, sequence_values(inst, n), inst["gens"])
-                if not t_is_zero(val):
-                    bad = (n, val)
-                    break
-            if acc and bad is None:
+            ctx.violation(f"non-goal-symbol-in-basis:{label}:{el}",
+                          {"input": label, "element": el, "closed_forms": inst["exprs"]},
+                          f"reported basis element {el} of {inst['names']} mentions symbols that are not goals (n or an exponential placeholder)")
+        for v in inst["verdicts"]:
+            ctx.coverage["obligations"] += 1
+            if v["accepted"] and v["bad"] is None:
                 ctx.coverage["discharged"] += 1
                 stat["invariant-proved"] = stat.get("invariant-proved", 0) + 1
-                ctx.sample({"input": label, "invariant": (inst["basis_str"] or [None])[0], "all_invariants": inst["basis_str"],
+                ctx.sample({"input": label, "invariant": v["pstr"], "all_invariants": inst["basis_str"],
                             "validator": f"accepted: holds for all n >= {n0}"})
-                continue
-            pstr = " + ".join("*".join([f"({c})"] + [f"{g}^{e}" for g, e in zip(inst["names"], es) if e]) for c, es in poly)
-            if bad is not None:
-                sig = KNOWN_VIA_C16 if exp_bases_trigger_c16(inst["exp_bases"]) else f"false-invariant:{label}:{pstr}"
-                new = ctx.violation(sig, {"input": label, "goals": inst.get("goals") or inst["names"], "closed_forms": inst["exprs"],
-                                          "invariant": pstr, "basis": inst["basis_str"], "n": bad[0],
-                                          "value_at_n": str(exppoly.field_to_complex(bad[1], inst["gens"])),
-                                          "exp_bases": inst["exp_bases"], "validator_accepted": acc,
-                                          "call": "InvariantIdeal(closed_forms).compute_basis()" if inst["kind"] == "tuple" else "polar.py --goals ... --invariants"},
-                                    f"reported invariant {pstr} = 0 of {inst['names']} with closed forms {inst['exprs']} "
-                                    f"is non-zero at n={bad[0]}")
-                stat["false-invariant"] = stat.get("false-invariant", 0) + 1
-                if not new:
-                    ctx.coverage["discharged"] += 1
-            else:
-                ctx.violation(f"unvalidated-invariant:{label}:{pstr}",
-                              {"input": label, "invariant": pstr, "closed_forms": inst["exprs"]},
-                              f"validator rejected {pstr} but it vanishes for n0 <= n <= {NMAX}", no_input=True)
+            elif v["bad"] is None:
+                ctx.violation(f"unvalidated-invariant:{label}:{v['pstr']}",
+                              {"input": label, "invariant": v["pstr"], "closed_forms": inst["exprs"]},
+                              f"validator rejected {v['pstr']} but it vanishes for n0 <= n <= {NMAX}", no_input=True)
+        if any(v["bad"] is not None for v in inst["verdicts"]):
+            inst["first_verdicts"] = inst["verdicts"]
+            inst["first_basis_str"] = inst["basis_str"]
+            failing.append(inst)
         if not inst["basis"]:
             stat["empty-basis"] = stat.get("empty-basis", 0) + 1
         if inst["kind"] == "program" and sorted(inst.get("printed") or []) != sorted(inst["basis_str"] or []):
             ctx.violation(f"cli-prints-other-basis:{label}", {"input": label, "printed": inst.get("printed"), "observed": inst["basis_str"]},
                           "the 'Invariants' section printed by the CLI is not the basis observed at InvariantIdeal.compute_basis()",
                           no_input=True)
+    # ---- root cause of false invariants: re-run the REAL InvariantIdeal with only ExponentLattice.compute_basis
+    # replaced (from the harness, in the worker) by the true lattice computed independently.  If every element is
+    # then a proved invariant, the false invariant comes from the known C16 defect and nothing else.
+    causal = {}
+    cand = []
+    for inst in failing:
+        tl = true_lattice_for(inst["exp_bases"]) if exp_bases_trigger_c16(inst["exp_bases"]) else None
+        if tl is not None:
+            inst["true_lattice"] = tl
+            cand.append(inst)
+    if cand:
+        res2 = run_polar(ctx, cand, override=True)
+        ok2 = prepare_all(cand, res2, {})
+        validate(ctx, ok2, "b")
+        for inst in ok2:
+            causal[id(inst)] = ("coq_error" not in inst and not inst.get("nongoal_elements")
+                                and all(v["accepted"] and v["bad"] is None for v in inst["verdicts"]))
+    ctx.coverage["false_invariants_attributed_to_C16"] = sum(1 for x in causal.values() if x)
+    for inst in failing:
+        label = label_of(inst)
+        for v in inst["first_verdicts"]:
+            if v["bad"] is None:
+                continue
+            sig = KNOWN_VIA_C16 if causal.get(id(inst)) else f"false-invariant:{label}:{v['pstr']}"
+            new = ctx.violation(sig, {"input": label, "goals": inst.get("goals") or inst["names"], "closed_forms": inst["exprs"],
+                                      "invariant": v["pstr"], "basis": inst["first_basis_str"], "n": v["bad"][0],
+                                      "value_at_n": str(exppoly.field_to_complex(v["bad"][1], inst["gens"])),
+                                      "exp_bases": inst["exp_bases"], "validator_accepted": v["accepted"],
+                                      "basis_with_true_exponent_lattice": inst["basis_str"] if causal.get(id(inst)) else None,
+                                      "call": "InvariantIdeal(closed_forms).compute_basis()" if inst["kind"] == "tuple" else "polar.py --goals ... --invariants"},
+                                f"reported invariant {v['pstr']} = 0 of {inst['names']} with closed forms {inst['exprs']} "
+                                f"is non-zero at n={v['bad'][0]}")
+            stat["false-invariant"] = stat.get("false-invariant", 0) + 1
+            if not new:
+                ctx.coverage["discharged"] += 1
     ctx.coverage["rule"] = ("closed-form tuples (fixed colliding-base lists + random) through InvariantIdeal, and generated loop programs "
                             "through the CLI path GoalsAction --invariants; one evaluation = one basis computation; obligations = basis "
                             "elements; non-trivial = non-empty basis; distinct by input")
@@ -402,6 +468,6 @@ def run(ctx):
     for inst in insts:
         pe = inst.get("polar_error")
         if pe and pe.get("error") not in ("timeout",):
-            label = inst.get("program") or inst["cfs"]
+            label = label_of(inst)
             ctx.violation(f"exception:{label}:{pe.get('etype')}", {"input": label, "error": pe},
                           f"invariant computation raised {pe.get('etype')}: {str(pe.get('msg'))[:200]}", no_input=True)
